@@ -13,10 +13,9 @@ cargo test --workspace --no-fail-fast --offline >"$OUT/confirm.with.log" 2>&1
 echo "--- WITH change: failing targets / tests:"
 grep -E "^test .* FAILED|^error: test failed|test result: FAILED" "$OUT/confirm.with.log" | head -12
 echo "ok-results: $(grep -c 'test result: ok' "$OUT/confirm.with.log")  failed-results: $(grep -c 'test result: FAILED' "$OUT/confirm.with.log")"
-git stash -q || exit 2
+git diff > "$OUT/patch.confirmed.diff"; git apply -R "$OUT/patch.confirmed.diff" || exit 2   # (git stash is shared between worktrees: not used)
 cargo test --workspace --no-fail-fast --offline >"$OUT/confirm.without.log" 2>&1
 echo "--- WITHOUT change: ok-results: $(grep -c 'test result: ok' "$OUT/confirm.without.log")  failed-results: $(grep -c 'test result: FAILED' "$OUT/confirm.without.log")"
 grep -E "^test .* FAILED|^error" "$OUT/confirm.without.log" | head -5
-git stash pop -q
-git diff > "$OUT/patch.confirmed.diff"
+git apply "$OUT/patch.confirmed.diff"
 cmp -s "$OUT/patch.confirmed.diff" "$OUT/patch.diff" && echo "patch.diff matches worktree diff" || echo "NOTE: patch.diff differs from worktree diff (using worktree diff)"
